@@ -843,6 +843,152 @@ def validate_predicate(case, impl):
     return None
 
 
+# ------------------------------------------------------------------ histories: sets interleaved with copies
+COPY_KINDS = ["deepcopy", "replace", "create_new_processor", "update_processor"]
+
+
+def gen_history(rng, world, proc):
+    """steps on a growing family of processors (0 = the original).  Only existing settings are assigned (plus now
+    and then a misspelt key, which must be refused and change nothing); keys repeat on purpose."""
+    valid = all_setting_keys(world, proc.detector)
+    steps, nproc, last_key = [], 1, None
+    for _ in range(rng.choice([3, 4, 5, 6, 8])):
+        key = last_key if (last_key is not None and rng.random() < 0.6) else list(rng.choice(valid))
+        last_key = key
+        bad = rng.random() < 0.08
+        k = key[:-1] + [key[-1] + "_x"] if bad else key
+        if key[0] == "detector":
+            v = valid_value(rng, key[2])
+        elif key[-1] == "enabled":
+            v = rng.choice([True, False])
+        else:
+            v = rng.choice([3, 50, 200, -1, 0.75, 100.0, "abc", "image.fits", True, [1, 2.5], [7]])
+        i = rng.randrange(nproc)
+        r = rng.random()
+        if r < 0.45:
+            inp, expected = as_input(rng, v)
+            steps.append({"do": "set", "proc": i, "key": k, "input": inp, "expected": canon_py(expected), "bad": bad})
+        elif r < 0.6:
+            steps.append({"do": "copy", "proc": i, "how": "deepcopy"})
+            nproc += 1
+        else:
+            how = rng.choice(COPY_KINDS[1:])
+            numeric = isinstance(v, (int, float)) and not isinstance(v, bool) and \
+                not (key[0] == "detector" and key[2] in ("row", "col", "adc_bit_resolution", "adc_voltage_range"))
+            if how == "update_processor":
+                if not numeric:
+                    how = "replace"
+                else:
+                    import numpy as np
+
+                    f = float(v)
+                    inp, expected = {"value": canon_py(np.float64(f)), "native": ["npfloat", f.hex()]}, np.float64(f)
+            if how != "update_processor":
+                inp, expected = as_input(rng, v)
+            steps.append({"do": "copyset", "proc": i, "how": how, "key": k, "input": inp, "expected": canon_py(expected), "bad": bad})
+            if not bad:
+                nproc += 1
+    return steps
+
+
+def run_history_impl(case):
+    import copy
+
+    import numpy as np
+    import probes
+    from pyxel.calibration.fitting_datatree import ModelFittingDataTree
+    from pyxel.observation import ParameterValues
+    from pyxel.observation.misc import create_new_processor
+
+    probes.reset()
+    procs = [build(case["world"])]
+    plist = case["probes"]
+    out = {"det_tree": detector_tree(procs[0].detector), "steps": []}
+    for st in case["steps"]:
+        P = procs[st["proc"]]
+        if st["do"] == "copy":
+            r = attempt(copy.deepcopy, P)
+        else:
+            dotted = ".".join(st["key"])
+            value = native_of(st["input"])
+            if st["do"] == "set":
+                r = attempt(P.set, dotted, value)
+            elif st["how"] == "replace":
+                r = attempt(P.replace, {dotted: value})
+            elif st["how"] == "create_new_processor":
+                r = attempt(create_new_processor, P, {dotted: value})
+            else:
+                var = ParameterValues(key=dotted, values="_", boundaries=(-1.0e9, 1.0e9))
+                r = attempt(ModelFittingDataTree.update_processor, types.SimpleNamespace(_variables=[var]),
+                            np.array([float(value)]), P)
+        if "ok" in r and st["do"] != "set":
+            procs.append(r["ok"])
+        out["steps"].append({"err": None if "ok" in r else r["err"], "msg": r.get("msg"),
+                             "states": [[probe_get(Q, p) for p in plist] for Q in procs],
+                             "snaps": [raw_snapshot(Q) for Q in procs]})
+    out["calls"] = len(probes.LOG)
+    return out
+
+
+def history_predicate(case, impl):
+    """the statement along the history: every live processor reads, for every setting, the last value assigned
+    through it (or through the processor it was copied from, before the copy); a refused assignment and an
+    assignment made through another processor change nothing."""
+    plist = case["probes"]
+    expected = [dict()]          # per processor: key index -> canonical expected read-back (None = initial value)
+    initial = None
+    snaps_prev = None
+    for n, (st, got) in enumerate(zip(case["steps"], impl["steps"])):
+        if initial is None:
+            # values before the first step are not observed separately: take them from processor 0's untouched keys lazily
+            initial = {}
+        ok = got["err"] is None
+        touched = None
+        if st["do"] == "copy":
+            if not ok:
+                return "history:copy-failed", "step %d: deepcopy failed: %s" % (n, got["err"])
+            expected.append(dict(expected[st["proc"]]))
+            touched = len(expected) - 1
+        else:
+            if st["bad"]:
+                if ok:
+                    return "history:set-accepts-nonexistent-key", "step %d: key %r names nothing but was accepted" % (n, ".".join(st["key"]))
+            elif not ok:
+                return ("history:valid-key-rejected", "step %d: %s of existing setting %r refused: %s %s"
+                        % (n, st.get("how", "set"), ".".join(st["key"]), got["err"], got.get("msg")))
+            if ok:
+                ki = plist.index(st["key"])
+                if st["do"] == "set":
+                    expected[st["proc"]][ki] = st["expected"]
+                    touched = st["proc"]
+                else:
+                    e = dict(expected[st["proc"]])
+                    e[ki] = st["expected"]
+                    expected.append(e)
+                    touched = len(expected) - 1
+        if len(got["states"]) != len(expected):
+            return "history:processor-count", "step %d: %d live processors, expected %d" % (n, len(got["states"]), len(expected))
+        for q, (state, exp) in enumerate(zip(got["states"], expected)):
+            for ki, want in exp.items():
+                if state[ki] != {"ok": {"v": want}}:
+                    return ("history:read-back",
+                            "step %d (%s %s on processor %d): processor %d reads %s through %r, the last value assigned through it is %s"
+                            % (n, st.get("how", st["do"]), ".".join(st.get("key", [])), st["proc"], q, json.dumps(state[ki]),
+                               ".".join(plist[ki]), json.dumps(want)))
+        # nothing but the touched processor may change in this step
+        if snaps_prev is not None:
+            for q, before in enumerate(snaps_prev):
+                if q != touched and got["snaps"][q] != before:
+                    return ("history:other-processor-changed", "step %d on processor %s changed processor %d at %s"
+                            % (n, touched, q, snap_diff(before, got["snaps"][q])))
+                if q == touched and st["do"] == "set" and ok:
+                    extra = [d for d in snap_diff(before, got["snaps"][q]) if d not in cell_of(case["world"], st["key"])]
+                    if extra:
+                        return "history:frame", "step %d: assigning %r also changed %s" % (n, ".".join(st["key"]), extra)
+        snaps_prev = got["snaps"]
+    return None
+
+
 # ------------------------------------------------------------------ body
 def body(ck: common.Check):
     import extract
@@ -905,7 +1051,20 @@ def body(ck: common.Check):
         val_cases.append({"stream": "validate", "world": world, "key": key, "values": vals, "class": cls,
                           "mode": rng.choice(["product", "sequential"]), "run": True if quick and i % 2 == 0 else (not quick and i % 4 == 0)})
 
+    # ---- stream 4: histories (several assignments on one processor interleaved with copies)
+    hist_cases = []
+    for _ in range(70 if quick else 900):
+        world = gen_world(rng)
+        proc = build(world)
+        hist_cases.append({"stream": "history", "world": world, "steps": gen_history(rng, world, proc),
+                           "probes": all_setting_keys(world, proc.detector)})
+    for c in hist_cases:      # misspelt keys are read back too
+        for st in c["steps"]:
+            if "key" in st and st["key"] not in c["probes"]:
+                c["probes"] = c["probes"] + [st["key"]]
+
     # implementation first (the detector tree sent to the model is read off the real objects)
+    hist_impl = [run_history_impl(c) for c in hist_cases]
     key_impl = [run_key_impl(c) for c in key_cases]
     val_impl = [run_validate_impl(c) for c in val_cases]
 
@@ -917,13 +1076,24 @@ def body(ck: common.Check):
     for c, im in zip(val_cases, val_impl):
         reqs.append({"op": "validate", "det": im["det_tree"], "cfg": cfg_json(c["world"]), "key": c["key"],
                      "values": [canon_py(v) for v in c["values"]], "custom": False})
+    n_before_hist = len(reqs)
+    for c, im in zip(hist_cases, hist_impl):
+        steps = []
+        for st in c["steps"]:
+            d = {"do": st["do"], "proc": st["proc"]}
+            if "key" in st:
+                d["key"] = st["key"]
+                d.update({k: v for k, v in st["input"].items() if k not in ("native", "cal_n")})
+            steps.append(d)
+        reqs.append({"op": "history", "det": im["det_tree"], "cfg": cfg_json(c["world"]), "probes": c["probes"], "steps": steps})
     answers = LeanDriver("C08").batch(reqs)
     for a in answers:
         if "bad" in a:
             raise common.InfraError(f"driver rejected a request: {a}")
     a_eval = answers[: len(eval_cases)]
     a_key = answers[len(eval_cases): len(eval_cases) + len(key_cases)]
-    a_val = answers[len(eval_cases) + len(key_cases):]
+    a_val = answers[len(eval_cases) + len(key_cases): n_before_hist]
+    a_hist = answers[n_before_hist:]
 
     from pyxel.evaluator import eval_entry
 
@@ -988,7 +1158,25 @@ def body(ck: common.Check):
             if ans["spec"] is not None and ans["spec"] != ans["model_fixed"]:
                 raise common.InfraError("Lean model: validateStep and its specification disagree — contradicts theorem validate_argument_spec")
 
-    ck.rule = ("eval: random literals of the grammar (None/bool/ints to 10^25/decimal+scientific floats/quoted strings/lists "
+    for c, im, ans in zip(hist_cases, hist_impl, a_hist):
+        ck.case({k: c[k] for k in ("world", "steps")}, nontrivial=len(c["steps"]) >= 3, stream="history")
+        for st in c["steps"]:
+            ck.count("history:step=" + st.get("how", st["do"]))
+        ck.count("history:processors=%d" % len(im["steps"][-1]["states"]))
+        why = history_predicate(c, im)
+        if why is not None:
+            slim = {"steps": [{k: v for k, v in g.items() if k != "snaps"} for g in im["steps"]]}
+            ck.violation("C08:" + why[0], why[1], {"case": c, "impl": slim})
+        iv = [{"err": g["err"], "states": g["states"]} for g in im["steps"]]
+        mv = [{"err": g["err"], "states": [[norm_model_val(x) for x in stt] for stt in g["states"]]} for g in ans["steps"]]
+        if iv != mv:
+            first = next(i for i, (a, b) in enumerate(zip(iv, mv)) if a != b)
+            ck.disagreement("history", {k: c[k] for k in ("world", "steps")}, {"step": first, "impl": iv[first]}, mv[first])
+
+    ck.rule = ("history: random pipelines, 3-8 steps on a growing family of processors (Processor.set, copy.deepcopy, "
+               "Processor.replace, create_new_processor, update_processor) over model-argument / enabled / detector keys that "
+               "repeat on purpose, every setting read back and every attribute snapshotted on every live processor after every step; "
+               "eval: random literals of the grammar (None/bool/ints to 10^25/decimal+scientific floats/quoted strings/lists "
                "and tuples nested to depth 3) and bare words; key: random pipelines (1-4 groups, absent groups, 1-3 models, "
                "0-3 arguments) x 4 detector types, keys = every settable detector field / argument / enabled flag and their "
                "misspelt-leaf, misspelt-inner, truncated, over-long, absent-group, unknown-model and read-only variants, through "
@@ -1034,6 +1222,10 @@ def replay(rp):
         impl = run_key_impl(case)
         print("impl:", {k: v for k, v in impl.items() if k != "det_tree"})
         why = key_predicate(case, impl)
+    elif st == "history":
+        impl = run_history_impl(case)
+        print("impl:", [{k: v for k, v in g.items() if k != "snaps"} for g in impl["steps"]])
+        why = history_predicate(case, impl)
     else:
         impl = run_validate_impl(case)
         print("impl:", {k: v for k, v in impl.items() if k != "det_tree"})
